@@ -46,14 +46,25 @@ int main(int argc, char** argv)
     // after the regular cases (their numbers stay): two-scale weights with threshold 1/4, so that A has weak cross-rank
     // edges and ghost columns which the strength matrix does not have
     int nextra = c16 ? 0 : ncases / 2;
-    for (int it0 = 0; it0 < ncases + nextra; it0++)
+    // ... and then: exact ties. Every off-diagonal a_ij = -(2 - key_j) with keys in multiples of 1/128, so that for every
+    // vertex all candidates of the second aggregation pass have exactly the same strength |a_ij| + key_j = 2: the result is
+    // decided by the tie rule alone (A is not symmetric here; the routines read row i of A only)
+    int nties = c16 ? 0 : ncases / 3;
+    for (int it0 = 0; it0 < ncases + nextra + nties; it0++)
     {
-        bool twoscale = it0 >= ncases; int it = twoscale ? (it0 - ncases) * 2 : it0;
+        bool twoscale = it0 >= ncases && it0 < ncases + nextra, tiemode = it0 >= ncases + nextra;
+        int it = twoscale ? (it0 - ncases) * 2 : tiemode ? (it0 - ncases - nextra) * 3 : it0;
         int cap = 2 + std::min(28, it / 2);
         int n = std::max(seq ? 1 : np, g.range(1, cap + (seq ? 0 : np)));
+        if (tiemode) n = std::min(n, 31);
         vh::Trip t = gen_sym(g, n, twoscale);
         std::vector<double> keys = gen_keys(g, n);
         double theta = g.coin() ? 0.0 : 0.25; if (twoscale) theta = 0.25;
+        if (tiemode) {
+            theta = 0.0;
+            for (int i = 0; i < n; i++) keys[i] = std::round(keys[i] * 4.0 * (n + 2.0)) / 128.0;          // (rank order + 1) / 128: distinct, < 1/4
+            for (size_t k = 0; k < t.r.size(); k++) if (t.r[k] != t.c[k]) t.v[k] = -(2.0 - keys[t.c[k]]);
+        }
         char ctx[96]; snprintf(ctx, 96, "%s/%s/n%d", prop, seq ? "seq" : "par", n); E.about(ctx);
         // C16 inputs: an arbitrary aggregation (roots = lowest member), candidate with non-zero restriction, omega, k
         std::vector<int> aggRoot(n, -1); std::vector<double> B(n);
